@@ -24,6 +24,7 @@ type Response struct {
 var (
 	Bodies   map[string][]byte
 	Faults   bool // whether failing answers are on the menu
+	Kinds    = 3  // how many of the failing answers are on the menu
 	Gets     int
 	Failures int
 )
@@ -51,7 +52,7 @@ func Get(url string) (*Response, error) {
 	}
 	pick := 0
 	if Faults {
-		pick = vs.S.Choose(vs.KEnv, 4)
+		pick = vs.S.Choose(vs.KEnv, 1+Kinds)
 	}
 	switch pick {
 	case 1:
